@@ -15,10 +15,10 @@ ASSUMPTIONS = [
 ]
 
 
-THRX = {"C17", "C18"}
+THRX = {"C14", "C17", "C18"}
 SEQX_ALSO = {"C01", "C15"}
 THRX_ALSO = {"C03", "C15"}
-MACX = {"C01", "C03", "C04", "C05", "C06", "C09", "C10", "C11", "C12", "C13", "C15", "C16"}
+MACX = {"C01", "C03", "C04", "C05", "C06", "C07", "C09", "C10", "C11", "C12", "C13", "C15", "C16"}
 
 
 def jobs(pid, tier, engine):
@@ -28,14 +28,30 @@ def jobs(pid, tier, engine):
     if pid in SEQX or pid in SEQX_ALSO:
         for i in range(ncpu):
             out.append(("seqx", ["seqx", "--property", pid, "--tier", tier, "--shard", f"{i}/{ncpu}"]))
+    if pid in ("C01", "C02"):
+        for i in range(ncpu):
+            out.append(("shapex", ["shapex", "--property", pid, "--tier", tier, "--shard", f"{i}/{ncpu}"]))
     if pid in MACX:
         for i in range(ncpu):
             out.append(("macx", ["macx", "--property", pid, "--tier", tier, "--shard", f"{i}/{ncpu}"]))
     if pid in THRX or pid in THRX_ALSO:
-        n = int(subprocess.check_output([engine, "thrx", "--property", pid, "--tier", tier, "--count"], text=True).strip())
-        # one process per driver: the set of registered caches is then exactly the driver's own
-        for i in range(n):
-            out.append(("thrx", ["thrx", "--property", pid, "--tier", tier, "--driver", str(i)]))
+        labels = [l.split(" ", 1) for l in subprocess.check_output([engine, "thrx", "--property", pid, "--tier", tier, "--list"], text=True).splitlines() if l.strip()]
+        # one process per driver: the set of registered caches is then exactly the driver's own;
+        # thread-scope-only drivers ("T:...") register nothing and are batched
+        batch = []
+        for idx, label in labels:
+            if label.startswith("T:"):
+                batch.append(int(idx))
+                if len(batch) == 24:
+                    out.append(("thrx", ["thrx", "--property", pid, "--tier", tier, "--drivers", f"{batch[0]}:{batch[-1] + 1}"]))
+                    batch = []
+            else:
+                if batch:
+                    out.append(("thrx", ["thrx", "--property", pid, "--tier", tier, "--drivers", f"{batch[0]}:{batch[-1] + 1}"]))
+                    batch = []
+                out.append(("thrx", ["thrx", "--property", pid, "--tier", tier, "--driver", idx]))
+        if batch:
+            out.append(("thrx", ["thrx", "--property", pid, "--tier", tier, "--drivers", f"{batch[0]}:{batch[-1] + 1}"]))
     return out
 
 
@@ -74,6 +90,29 @@ def evidence(pid, tier, records):
         cov["rule"] = ("breadth-first search over the real cache contents; a state is (store with values/hit counters/ages, queue, ghost ranks, clock phase); "
                        "a transition calls the real get/insert/insert_with_memory or advances the virtual clock; every fastrand draw is a branch; "
                        "exhaustive up to depth_completed per configuration (to closure where configs_closed counts it)")
+    shapes = [v for (e, k, v) in records if k == "SHAPE"]
+    if shapes:
+        tuples = sum(x["tuples"] for x in shapes)
+        cov["shapex"] = {
+            "signature_shapes": len(shapes),
+            "sync_shapes": sum(1 for x in shapes if x["generator"].startswith("sync")),
+            "async_shapes": sum(1 for x in shapes if x["generator"].startswith("async")),
+            "method_shapes": sum(1 for x in shapes if x["method"]),
+            "argument_tuples": tuples,
+            "calls": 2 * tuples,
+            "largest_shape": max(shapes, key=lambda x: x["tuples"])["signature"],
+        }
+        cov["evaluations"] = cov.get("evaluations", 0) + tuples
+        cov["distinct_nontrivial"] = cov.get("distinct_nontrivial", 0) + sum(x["nontrivial"] for x in shapes)
+        cov["states"] = cov.get("states", 0) + tuples
+        cov["transitions"] = cov.get("transitions", 0) + 2 * tuples
+        cov["traces_validated_against_impl"] = cov.get("traces_validated_against_impl", 0) + 2 * tuples
+        cov["configs"] = cov.get("configs", 0) + len(shapes)
+        cov.setdefault("samples", []).extend({"shape": x["name"], "signature": x["signature"], "generator": x["generator"], "tuples": x["tuples"], "argument_tuples_as_rendered": x["samples"]} for x in sorted(shapes, key=lambda x: -x["tuples"])[:3])
+        cov["exhaustive"] = False
+        cov["rule"] = (cov.get("rule", "") + " | shapex: for every signature shape (free functions and methods, sync to_cache_key and async format!) every argument tuple of the cartesian product of small adversarial domains "
+                       "(separator, quotes, backslash, digit concatenations, nested containers) is called twice on an unlimited cache; a tuple is non-trivial when another tuple of the same shape has the same rendering once all delimiters are dropped "
+                       "(they stay apart only thanks to separators / quoting); oracle: executions = tuples = listed keys and every call returns its own tuple").strip(" |")
     suites = [v for (e, k, v) in records if k == "SUITE"]
     if suites:
         cov["macx"] = {
